@@ -262,7 +262,7 @@ class Pack(object):
         self.fam, self.kinds, self.idx = fam, kinds, []
 
 
-def run_family(f, variant=0, shape_fn=None, perm_seed=None, raw_hook=None):
+def run_family(f, variant=0, shape_fn=None, perm_seed=None, raw_hook=None, unpacked=False):
     """Execute every entry of every case. Returns obs[i] = list of [cmd, params, observation] per case.
 
     Cell-wise families (L == 1) are packed: one execute per (kinds, entry) over all lattice points.
@@ -271,7 +271,7 @@ def run_family(f, variant=0, shape_fn=None, perm_seed=None, raw_hook=None):
     np = lib()["__numpy__"]
     obs = [None] * len(f.cases)
     nexec = 0
-    if f.L == 1:
+    if f.L == 1 and not unpacked:
         groups = {}
         for i, (ins, out) in enumerate(f.cases):
             # (variant 97 - complete arrays as plain ndarrays - packs the lattice points input by input into complete and missing ones, so that complete arrays exist)
@@ -410,8 +410,8 @@ class Session(object):
     def wanted(self, cmd):
         return self.only is None or cmd in self.only
 
-    def add_family(self, f, variant=0, shape_fn=None, perm_seed=None, label="", raw_hook=None):
-        obs, nexec = run_family(f, variant, shape_fn, perm_seed, raw_hook)
+    def add_family(self, f, variant=0, shape_fn=None, perm_seed=None, label="", raw_hook=None, unpacked=False):
+        obs, nexec = run_family(f, variant, shape_fn, perm_seed, raw_hook, unpacked)
         self.chk.cov["evaluations"] += nexec
         for i, (ins, out) in enumerate(f.cases):
             o = [x for x in obs[i] if self.wanted(x[0])]
@@ -503,6 +503,10 @@ def check_C06(tier):
     for f in fams:
         if f.n <= 2:        # the definitions are cell by cell: the same cells as a grid (column-major memory layout)
             s.add_family(f, variant=50, shape_fn=shape_fn_for(f, 2), label="rank-2 grid")
+        if f.n == 2 and f.L == 1:
+            # every lattice point on its own (one-cell arrays: an input may then be "true everywhere"), and complete arrays as plain ndarrays
+            s.add_family(f, variant=core.SEED % 4, label="one cell per array", unpacked=True)
+            s.add_family(f, variant=97, label="complete arrays as plain ndarrays")
     s.finish()
     metamorphic_fuzzy(chk, 200 if tier == "quick" else 3000)
     chk.cov["rule"] = ("TLC enumerates every lattice point (fuzzy values k/4, k=-4..4, and the missing cell) for n inputs and evaluates every operator entry "
@@ -583,6 +587,7 @@ def check_C07(tier):
     for f in fams:
         if f.fam == "ar" and f.n <= 2 and f.L == 1:        # the same cells as a grid (column-major memory layout)
             s.add_family(f, variant=50, shape_fn=shape_fn_for(f, 2), label="rank-2 grid")
+            s.add_family(f, variant=97, label="complete arrays as plain ndarrays")
     s.finish()
     metamorphic_arith(chk, 150 if tier == "quick" else 3000)
     chk.cov["rule"] = ("TLC enumerates every lattice point (floats k/2, k=-4..4; integers -2..2; the missing cell) for n inputs and every assignment of "
@@ -726,6 +731,8 @@ def csv_read_array(kind, cells, shape=None):
     from mpilot.libraries.eems.csv.io import EEMSRead
 
     missing = -9999
+    if kind == "i" and not any(c[1] != 0 and c[0] == 0 for c in cells):
+        missing = 0          # zero (a falsy number) marks the missing cells of an integer column that has no zero
     if kind != "i":
         # the declared missing value lies very close to (but is not) one of the column's values: only cells EQUAL to it are missing
         near = [c[0] / c[1] for c in cells if c[1] != 0 and c[0] != 0]
@@ -861,6 +868,10 @@ def check_C04(tier):
     for f in fams:
         if f.fam != "cva" or f.L <= 3:
             s.add_family(f, variant=96, label="1-D, single-precision data", raw_hook=hook)
+        if f.L == 1 and f.n <= 2 and not f.wide:
+            s.add_family(f, variant=50, shape_fn=shape_fn_for(f, 2), label="rank-2 grid, column-major memory layout", raw_hook=hook)
+        if f.fam == "cva" and f.L <= 3:
+            s.add_family(f, variant=97, label="complete arrays as plain ndarrays", raw_hook=hook)
     s.finish()
     stretch_C04(chk, 300 if tier == "quick" else 5000)
     chk.cov["raw_range_checks"] = nraw[0]
